@@ -188,6 +188,27 @@ def r2_one_protocol(ctx):
     q = [n for n in body if any(common.call_name(c).endswith('get_quantization_configs') for c in g.nodes[n].calls())]
     if not ctx.check(R, len(q) == 1, head.ast, f, 'recipe query', f'{f.name}: the operator loop must query the recipe exactly once per operator'):
       continue
+    # ... on every path through an iteration, except the unknown-op-code skip
+    allowed = set()
+    for n in body:
+      nd = g.nodes[n]
+      if nd.kind == 'if':
+        t = defuse.norm(nd.ast.test)
+        if ('TFL_OP_CODE_TO_NAME' in t and 'not in' in t) or t.endswith('is None'):
+          for st in nd.ast.body:
+            for x in ast.walk(st):
+              if isinstance(x, ast.Continue) and g.node_of(x) is not None:
+                allowed.add(g.node_of(x).id)
+    starts = [d for d, lab in g.succ[head.id] if d in body]
+    back = {s for s in body if any(d == head.id for d, _ in g.succ[s])}
+    reach = g.reachable(starts, blocked={q[0]} | allowed | {head.id})
+    bypass = sorted(reach & back)
+    path = None
+    if bypass:
+      p = g.witness_path(starts[0], bypass[0], {q[0]} | allowed | {head.id}) if starts else None
+      path = g.describe_path(p) if p else None
+    ctx.check(R, not bypass, head.ast, f, 'recipe query on every iteration path',
+              f'{f.name}: an operator can pass through the loop without being looked up in the recipe (the verdict of another operator is reused or the lookup is skipped)', path=path)
     call = [c for c in g.nodes[q[0]].calls() if common.call_name(c).endswith('get_quantization_configs')][0]
     key_arg = call.args[0] if call.args else None
     full = inl.inline(f, key_arg) if key_arg is not None else None
@@ -388,9 +409,79 @@ def r5_absent_not_empty(ctx):
   ctx.check(R, len(raises) >= 1, w.node, w, 'missing tensor statistics error', 'missing statistics of a runtime tensor must raise')
 
 
+def r6_need_calibration_sound(ctx):
+  """need_calibration() == False must imply that NO (operator, scope) resolves
+  to a configuration that needs statistics - otherwise calibrate() returns {}
+  and quantize() fails for missing statistics. Decided over one- and two-rule
+  stores against the repository's own resolution function."""
+  import itertools  # pylint: disable=g-import-not-at-top
+  from sa.rules import c11  # pylint: disable=g-import-not-at-top
+  R = 'C10.R6'
+  rs = ctx.rule(R, 'need_calibration() is False only if no (operator, scope) resolves to a static-range config (rule lists of one and two rules)', floor=1)
+  nc = ctx.repo.func('recipe_manager:RecipeManager.need_calibration')
+  res = ctx.repo.func('recipe_manager:RecipeManager.get_quantization_configs')
+  ctx.instance(R)
+  OP, ALG, drq, srq, bad = c11._domain(ctx)  # pylint: disable=protected-access
+  MM, NOQ = ALG['MIN_MAX_UNIFORM_QUANT'], ALG['NO_QUANTIZE']
+  FC, SM, ALL = OP['FULLY_CONNECTED'], OP['SOFTMAX'], OP['ALL_SUPPORTED']
+  okc, _ = tables.accepts(ctx, MM, SM, srq)
+  if not okc:
+    raise index.AnalysisError('C10.R6 domain: static-range int8 is expected to be supported for SOFTMAX')
+  default_cfg = tables.construct(ctx, common.OPCFG)
+  it = c11._mk_interp(ctx)  # pylint: disable=protected-access
+  mk = {
+      'fcS': lambda rx: c11._recipe(rx, FC, MM, srq),    # pylint: disable=protected-access
+      'smS': lambda rx: c11._recipe(rx, SM, MM, srq),    # pylint: disable=protected-access
+      'allS': lambda rx: c11._recipe(rx, ALL, MM, srq),  # pylint: disable=protected-access
+      'allD': lambda rx: c11._recipe(rx, ALL, MM, drq),  # pylint: disable=protected-access  (not supported for SOFTMAX: resolution falls through)
+      'fcD': lambda rx: c11._recipe(rx, FC, MM, drq),    # pylint: disable=protected-access
+      'allNo': lambda rx: c11._recipe(rx, ALL, NOQ, default_cfg),  # pylint: disable=protected-access
+  }
+  regexes = ['.*', 'x', 'y']
+  scopes = ['x/y;', 'y;', 'zz;']
+  rs.exhaustive = True
+  stores = []
+  for r1, n1 in itertools.product(regexes, mk):
+    stores.append([(r1, n1)])
+    for r2, n2 in itertools.product(regexes, mk):
+      if r2 != r1:
+        stores.append([(r1, n1), (r2, n2)])
+      elif n1 != n2 and not n2.startswith('all') and not (mk[n1]('q').fields['operation'] == mk[n2]('q').fields['operation']):
+        stores.append([(r1, n1), (r1, n2)])   # same scope, second rule appended
+  import re as _re  # pylint: disable=g-import-not-at-top
+  n = 0
+  for shape in stores:
+    store = {}
+    for rx, name in shape:
+      store.setdefault(rx, []).append(mk[name](rx))
+    selfobj = Obj('recipe_manager:RecipeManager', {'_scope_configs': store})
+    outs = it.outcomes(nc, [selfobj], copy_args=False)
+    if len(outs) != 1 or outs[0].kind != 'return' or not isinstance(outs[0].value, bool):
+      ctx.check(R, False, nc.node, nc, f'rules {shape}', f'need_calibration() not decided: {[o.short() for o in outs]}')
+      continue
+    need = outs[0].value
+    n += 1
+    if need:
+      ctx.check(R, True, nc.node, nc, f'rules {shape}: True', '')
+      continue
+    witness = None
+    for target, scope in itertools.product([FC, SM], scopes):
+      q = it.outcomes(res, [selfobj, target, scope], copy_args=False)
+      if len(q) == 1 and q[0].kind == 'return' and isinstance(q[0].value, tuple):
+        alg, cfg = q[0].value
+        if alg != NOQ and isinstance(cfg, Obj) and cfg.fields.get('activation_tensor_config') is not None and cfg.fields.get('compute_precision').name == 'INTEGER':
+          witness = (target.name, scope)
+          break
+    ctx.check(R, witness is None, nc.node, nc, f'rules {shape}',
+              f'need_calibration() is False, yet operator {witness[0] if witness else ""} under scope {witness[1] if witness else ""!r} resolves to a static-range config: '
+              'calibrate() returns an empty result and quantize() fails for missing statistics')
+  ctx.sample(R, {'stores': n})
+
+
 def run(ctx):
   r1_one_scope_function(ctx)
   r2_one_protocol(ctx)
   r3_signature_subgraph(ctx)
   r4_needs_statistics(ctx)
   r5_absent_not_empty(ctx)
+  r6_need_calibration_sound(ctx)
